@@ -10,6 +10,7 @@
   denotes the specification object with the same pool index.
 -/
 import ALV.Lemmas.C03Run
+import ALV.Lemmas.C03Hist
 import ALV.Lemmas.C03Periodic
 import ALV.Lemmas.C03Counts
 import ALV.Common.Audit
@@ -168,6 +169,35 @@ theorem thub_uses (xs : List α) (n k : Nat) :
   simp [specRun, specStep, specSrc, srcSeq] at this ⊢
   exact this
 
+/-- **C03.3d** a thub among several arguments (`Stream(pre, hub, post)`, `s.append(pre, hub, post)`)
+gives one of its uses to that call, at the call: of the `k` requests that follow, the first `n - 1`
+succeed, the others raise IndexError; with no use left it is the call itself that raises.  (The
+real `it.chain(*args)` asks the hub for its iterator only when the chain gets there: finding D16.) -/
+theorem thub_uses_mixed (xs pre post : List α) (n k : Nat) :
+    ∃ F, ∀ f, F ≤ f → run f St.empty
+        (.thub (.list xs) n :: .new (.mixed pre 0 post) :: List.replicate k (.new (.obj 0))) =
+      some (.new 0) :: some (if 0 < n then Obs.new 1 else .err "IndexError") :: (List.range k).map
+        (fun j => some (if j + 1 < n then Obs.new (if 0 < n then 2 + j else 1 + j) else .err "IndexError")) := by
+  obtain ⟨F, h⟩ := run_refines (α := α)
+    (.thub (.list xs) n :: .new (.mixed pre 0 post) :: List.replicate k (.new (.obj 0)))
+    (fun op hop => by
+      rcases List.mem_cons.1 hop with rfl | hop
+      · trivial
+      rcases List.mem_cons.1 hop with rfl | hop
+      · trivial
+      · rw [List.eq_of_mem_replicate hop]; trivial)
+  refine ⟨F, fun f hf => ?_⟩
+  rw [h f hf]
+  cases n with
+  | zero =>
+    have := specRun_uses (⟨xs, []⟩ : LSeq α) k 0 []
+    simp [specRun, specStep, specSrc, srcSeq] at this ⊢
+    exact this
+  | succ m =>
+    have := specRun_uses (⟨xs, []⟩ : LSeq α) k m [.stream (((LSeq.fin pre).append ⟨xs, []⟩).append (LSeq.fin post))]
+    simp [specRun, specStep, specSrc, srcSeq] at this ⊢
+    rw [this]
+
 /-- **C03.3b** `thub` of a non-iterable is that object: nothing is created, the object comes back. -/
 theorem thub_noniter (f : Nat) (st : St α) (v : α) (n : Nat) :
     step f st (.thub (.const v) n) = some (st, .const v) := rfl
@@ -208,6 +238,49 @@ sees only a finite prefix of a periodic source. -/
 theorem spec_take_prefix (s : LSeq α) {n m : Nat} (hm : n ≤ m) :
     s.take n = (LSeq.mk (s.unroll m) []).take n := LSeq.take_prefix s hm
 
+/-! ### histories in which the caller owns containers (`hist`)
+
+`hrun` interleaves the method calls with what the caller does to the containers he owns: those
+handed out by take / peek / list() and the lists he builds and passes in (`HOp`). -/
+
+/-- **C03.7 (histories with the caller's containers)** for every such history over finite sources:
+every observation and the final contents of every container of the caller are those of the list
+model — whatever the caller did to the containers in between, and however often he passed the
+same list in. -/
+theorem hist_refines (hops : List (HOp α)) (hfin : ∀ hop, hop ∈ hops → hop.Fin) :
+    ∃ F, ∀ f, F ≤ f → hrun f HSt.empty hops = hspecRun ⟨[], []⟩ hops :=
+  hrun_refines_from rel_empty [] hops hfin
+
+/-- **C03.7a (what take / peek return belongs to the caller)** as long as the caller passes none
+of his containers back in, nothing he does to them (clear, reverse, pop, extend, overwrite) is
+seen by any stream: the method calls of the history observe exactly what they observe in the
+plain history without the caller's actions.  In particular `peek` still removes nothing and
+`take` still returns the first items of what remains after the caller has changed a list that
+an earlier `peek` / `take` returned. -/
+theorem hist_results_owned (f : Nat) (st : St α) (ls : List (List α)) (hops : List (HOp α))
+    (h : ∀ hop, hop ∈ hops → hop.NoRef) :
+    opObs hops (hrun f ⟨st, ls⟩ hops).1 = run f st (hops.filterMap HOp.plain) :=
+  hrun_plain f st ls hops h
+
+/-- **C03.7b (arguments are not written to)** no method call changes a container of the caller:
+after any step other than the caller's own `mut`, every existing list is what it was. -/
+theorem hist_lists_frame {f : Nat} {s s' : HSt α} {hop : HOp α} {o : Obs α}
+    (h : hstep f s hop = some (s', o)) (hm : ∀ j m, hop ≠ .edit j m) :
+    ∃ extra, s'.lists = s.lists ++ extra := hstep_lists_frame h hm
+
+/-- **C03.7c** a mutation by the caller changes no stream, hub or tee buffer. -/
+theorem hist_mut_state (f : Nat) (s : HSt α) (j : Nat) (m : Mut α) :
+    ∃ s' o, hstep f s (.edit j m) = some (s', o) ∧ s'.st = s.st ∧ s'.lists.length = s.lists.length :=
+  hstep_mut_state f s j m
+
+/-- **C03.7d (a list passed in is its contents at the call)** `Stream(L)`, `x.append(L)`,
+`thub(L, n)` are the operation on the literal contents `L` has when the call is made. -/
+theorem hist_ref_snapshot (f : Nat) (s : HSt α) (i j n : Nat) (xs : List α) (hj : s.lists[j]? = some xs) :
+    hstep f s (.newRef j) = hstep f s (.op (.new (.list xs))) ∧
+    hstep f s (.appendRef i j) = hstep f s (.op (.append i (.list xs))) ∧
+    hstep f s (.thubRef j n) = hstep f s (.op (.thub (.list xs) n)) := by
+  simp [hstep, hj]
+
 -- PENDING: the refinement of whole histories over periodic sources (every source, finite or
 -- not): whenever the model terminates at every step, its observations are those of the list
 -- model.  Today this is covered by the tie (histories with `Stream(1,2,3)` / `Stream(5)` sources,
@@ -230,12 +303,33 @@ example : run 10 (St.empty : St Int)
     [.thub (.list [4, 5]) 2, .new (.obj 0), .new (.obj 0), .new (.obj 0), .drain 2, .take 1 (.int 1), .drain 1]
     = [some (.new 0), some (.new 1), some (.new 2), some (.err "IndexError"), some (.items [4, 5]),
        some (.items [4]), some (.items [5])] := by decide
+/-- a thub with one use among several arguments: the call takes the use, the next request fails,
+    the stream yields the three parts -/
+example : run 10 (St.empty : St Int)
+    [.thub (.list [1, 2]) 1, .new (.mixed [0] 0 [3]), .new (.obj 0), .drain 1]
+    = [some (.new 0), some (.new 1), some (.err "IndexError"), some (.items [0, 1, 2, 3])] := by decide
 /-- periodic source through the model and the spec -/
 example : run 10 (St.empty : St Int) [.new (.cyc [1, 2, 3]), .take 0 (.int 5), .skip 0 (.int 2), .take 0 (.int 2)]
     = [some (.new 0), some (.items [1, 2, 3, 1, 2]), some .unit, some (.items [2, 3])] := by decide
 example : specRun ([] : SPool Int) [.new (.cyc [1, 2, 3]), .take 0 (.int 5), .skip 0 (.int 2), .take 0 (.int 2)]
     = [some (.new 0), some (.items [1, 2, 3, 1, 2]), some .unit, some (.items [2, 3])] := by decide
 example : (Op.new (.list [1, 2, 3]) : Op Int).Fin ∧ (Op.thub (.obj 0) 2 : Op Int).Fin := ⟨trivial, trivial⟩
+/-- `hist`: the caller reverses what `peek` returned, clears what `take` returned, passes the
+    reversed list in twice; model and list model agree, the lists at the end are the caller's -/
+example : hrun 10 (HSt.empty : HSt Int)
+    [.op (.new (.list [1, 2, 3, 4, 5])), .op (.peek 0 (.int 3)), .edit 0 .reverse, .op (.take 0 (.int 2)),
+     .edit 1 .clear, .appendRef 0 0, .newRef 0, .op (.drain 0), .op (.drain 1)]
+    = ([some (.new 0), some (.items [1, 2, 3]), some .unit, some (.items [1, 2]), some .unit, some .unit,
+        some (.new 1), some (.items [3, 4, 5, 3, 2, 1]), some (.items [3, 2, 1])],
+       [[3, 2, 1], [], [3, 4, 5, 3, 2, 1], [3, 2, 1]]) := by decide
+example : hspecRun (⟨[], []⟩ : HSp Int)
+    [.op (.new (.list [1, 2, 3, 4, 5])), .op (.peek 0 (.int 3)), .edit 0 .reverse, .op (.take 0 (.int 2)),
+     .edit 1 .clear, .appendRef 0 0, .newRef 0, .op (.drain 0), .op (.drain 1)]
+    = ([some (.new 0), some (.items [1, 2, 3]), some .unit, some (.items [1, 2]), some .unit, some .unit,
+        some (.new 1), some (.items [3, 4, 5, 3, 2, 1]), some (.items [3, 2, 1])],
+       [[3, 2, 1], [], [3, 4, 5, 3, 2, 1], [3, 2, 1]]) := by decide
+example : (HOp.op (.new (.list [1, 2])) : HOp Int).Fin ∧ (HOp.edit 0 .clear : HOp Int).NoRef ∧
+    (HOp.appendRef 0 0 : HOp Int).Fin := ⟨trivial, trivial, trivial⟩
 /-- the counts: `rint` rounds x.5 away from zero, `round` to even -/
 example : takeMode (.flt (5/2)) = .n 3 ∧ roundHalfEven (5/2) = 2 ∧ roundHalfEven (7/2) = 4
     ∧ takeMode .nan = .n 0 ∧ takeMode (.int (-2)) = .n 0 ∧ takeMode .ninf = .n 0 := by decide +kernel
